@@ -447,6 +447,17 @@ func traceqlSite(name, tmpl, which string, ticked bool) site {
 	}}
 }
 
+func traceqlClusterSite(name, tmpl, which string) site {
+	return site{name: name, run: func(v string) res {
+		lit, want, ok := logqlLit(v, false)
+		if !ok {
+			return rejected("literal not expressible")
+		}
+		sqls, rej := runTraceql(fmt.Sprintf(tmpl, lit), which, "k", true)
+		return plain(sqls, want, rej)
+	}}
+}
+
 // ---- PromQL matchers
 func promSite(name string, tp labels.MatchType, inName bool, down bool, fn string) site {
 	return site{name: name, run: func(v string) res {
@@ -533,6 +544,16 @@ func sites() []site {
 	}
 	s = append(s, logqlSite("logql.sel.cluster", `{a="b", c=~%s}`, logqlOpt{cluster: true}))
 	s = append(s, logqlSite("logql.sel.tick", "{a=%s}", logqlOpt{ticked: true}))
+	// round 5 (seeded C10-e): on a cluster the WITH sub-queries are inlined (STRING_OPT_INLINE_WITH): the stream selector is repeated
+	// inside the JOINed time-series select, so its values are rendered through the JOIN clause of Select.String
+	clu := logqlOpt{cluster: true}
+	s = append(s, logqlSite("logql.sel.cluster.eq", `{c=%s}`, clu))
+	s = append(s, logqlSite("logql.sel.cluster.ne", `{a="b", c!=%s}`, clu))
+	s = append(s, logqlSite("logql.lblf.ts.cluster", `{a="b"} | lbl = %s`, clu))
+	s = append(s, logqlSite("logql.lblf.map.cluster", `{a=%s} | json x="y" | lbl != "z"`, clu))
+	s = append(s, logqlSite("logql.rate.sel.cluster", `sum by (x) (rate({a=%s}[1m]))`, clu))
+	s = append(s, logqlSite("logql.unwrap.sel.cluster", `sum_over_time({a=~%s} | json x="y" | unwrap x [1m]) by (a)`, clu))
+	s = append(s, logqlLikeSite("logql.line|=.cluster", `{a="b"} |= %s`, clu))
 	s = append(s, logqlSite("logql.lblf.or", `{a="b"} | json x="y" | (lbl = %s or z != "q") and w =~ "r"`, no))
 	// line filters
 	s = append(s, logqlLikeSite("logql.line|=", `{a="b"} |= %s`, no))
@@ -575,8 +596,19 @@ func sites() []site {
 	// templates through the request path (logql_transpiler_v2.Plan): after `| json` (no parameters: decoded in Go) the
 	// label_format / line_format stages run in process, so the template must not reach any statement (the statement
 	// is the one for the marker)
-	s = append(s, logqlSite("logql.labelformat.tmpl", `{a="b"} | json | label_format x=%s`, no))
-	s = append(s, logqlSite("logql.lineformat.tmpl", `{a="b"} | json | line_format %s`, no))
+	for _, t := range []struct{ name, tmpl string }{
+		{"logql.labelformat.tmpl", `{a="b"} | json | label_format x=%s`},
+		{"logql.lineformat.tmpl", `{a="b"} | json | line_format %s`},
+	} {
+		// round 5: as at logql.lineformat.direct, a template ACTION is not a value (the atoms `{{`, `{{.}}` are new this round)
+		inner := logqlSite(t.name, t.tmpl, no)
+		s = append(s, site{name: inner.name, run: func(v string) res {
+			if strings.Contains(v, "{{") {
+				return rejected("template action changes the plan by design")
+			}
+			return inner.run(v)
+		}})
+	}
 	s = append(s, logqlSite("logql.sel.direct", `{a=%s} | json x="y"`, logqlOpt{direct: true}))
 	// identifiers
 	s = append(s, logqlIdentSite("logql.ident.sel", `{%s="b"}`, func(x *logql_parser.LogQLScript) string {
@@ -654,6 +686,12 @@ func sites() []site {
 	s = append(s, traceqlSite("traceql.agg.dur", `{name=%s} | max(duration) > 1s`, "plan", false))
 	s = append(s, traceqlSite("traceql.tags.re", `{.foo!~%s}`, "tags", false))
 	s = append(s, traceqlSite("traceql.values.eq", `{resource.foo=%s && .bar!="y"}`, "values", false))
+	// round 5: the value in the SECOND selector (the later operands of && / || are joined), single node and cluster (inlined WITHs)
+	s = append(s, traceqlSite("traceql.complex.2nd", `{.bar=~"y"} && {.foo=%s}`, "plan", false))
+	s = append(s, traceqlSite("traceql.complex.or.3rd", `{.a="x"} || {.b="y"} || {.foo!=%s}`, "plan", false))
+	s = append(s, traceqlClusterSite("traceql.attr.cluster", `{.foo=%s}`, "plan"))
+	s = append(s, traceqlClusterSite("traceql.complex.2nd.cluster", `{.bar="y"} && {span.foo=~%s}`, "plan"))
+	s = append(s, traceqlClusterSite("traceql.eval.or.cluster", `{.bar="x"} || {.foo=%s}`, "eval"))
 	for _, t := range []struct{ name, tmpl, which string }{
 		{"traceql.ident.agg", `{.foo="x"} | avg(.%s) > 1`, "plan"},
 		{"traceql.ident.span", `{span.%s="x"}`, "plan"},
@@ -818,6 +856,10 @@ func sites() []site {
 	s = append(s, tempoSearch("tempo.search.val.quoted", func(v string) (string, bool) { return "svc=" + strconv.Quote(v) + ` x!="y"`, true }))
 	s = append(s, tempoSearch("tempo.search.val.re", func(v string) (string, bool) { return "svc=~" + strconv.Quote(v), true }))
 	s = append(s, tempoSearch("tempo.search.name.quoted", func(v string) (string, bool) { return strconv.Quote(v) + `="y"`, true }))
+	// round 5 (seeded C10-e): the first tag is the FROM of the index query, every later tag is rendered inside a JOIN
+	s = append(s, tempoSearch("tempo.search.val.2nd", func(v string) (string, bool) { return `x!="y" svc=` + strconv.Quote(v), true }))
+	s = append(s, tempoSearch("tempo.search.val.re.3rd", func(v string) (string, bool) { return `x="y" w!="z" svc=~` + strconv.Quote(v), true }))
+	s = append(s, tempoSearch("tempo.search.name.2nd", func(v string) (string, bool) { return `x="y" ` + strconv.Quote(v) + `!="z"`, true }))
 	s = append(s, tempoSearch("tempo.search.val.bare", func(v string) (string, bool) {
 		if v == "" || strings.ContainsAny(v, " !=~\"\t\n\r\f\v") || !utf8.ValidString(v) {
 			return "", false
@@ -827,6 +869,16 @@ func sites() []site {
 	s = append(s, site{name: "tempo.sqlindexquery", run: func(v string) res {
 		q := &tempo.SQLIndexQuery{Tags: "k!~" + strconv.Quote(v), FromNS: 1700000000000000000, ToNS: 1700003600000000000,
 			MinDurationNS: 5, MaxDurationNS: 500, Limit: 10, Distributed: true, Database: "qryn",
+			Ver: dbVersion.VersionInfo{"tempo_v2": 1}, Ctx: context.Background()}
+		str, err := q.String(sql.DefaultCtx())
+		if err != nil {
+			return rejected("string: " + short(err))
+		}
+		return plain([]string{str}, v, "")
+	}})
+	s = append(s, site{name: "tempo.sqlindexquery.2nd", run: func(v string) res {
+		q := &tempo.SQLIndexQuery{Tags: `a="b" k=~` + strconv.Quote(v) + ` c!="d"`, FromNS: 1700000000000000000, ToNS: 1700003600000000000,
+			Limit: 10, Distributed: false, Database: "qryn",
 			Ver: dbVersion.VersionInfo{"tempo_v2": 1}, Ctx: context.Background()}
 		str, err := q.String(sql.DefaultCtx())
 		if err != nil {
@@ -893,6 +945,39 @@ func sites() []site {
 		_, err := ps.AnalyzeQuery(context.Background(), q, tFrom, tTo)
 		return err
 	}))
+	// round 5: the Pyroscope planners join their series selects; on a cluster the WITHs are inlined into the joined selects
+	profSelC := func(name string, tmpl string, call func(ps *service.ProfService, q string) error) site {
+		st := svcSite(name, true, func(reg *registry, v string) (string, error) {
+			ps := &service.ProfService{DataSession: reg}
+			return v, call(ps, fmt.Sprintf(tmpl, strconv.Quote(v)))
+		})
+		op := ""
+		if m := tmplOp.FindStringSubmatch(tmpl); m != nil {
+			op = m[1]
+		}
+		run := st.run
+		st.run = func(v string) res {
+			r := run(v)
+			if v != optMarker {
+				r.mk = matcherMarker(op, v)
+				r.mklit = r.mk
+			}
+			return r
+		}
+		return st
+	}
+	s = append(s, profSelC("prof.selectseries.sel.cluster", `{foo=%s}`, func(ps *service.ProfService, q string) error {
+		_, err := ps.SelectSeries(context.Background(), q, profType, []string{"g"}, 0, 15, tFrom, tTo)
+		return err
+	}))
+	s = append(s, profSelC("prof.mergestack.sel.cluster", `{foo=~%s, bar="x"}`, func(ps *service.ProfService, q string) error {
+		_, err := ps.MergeStackTraces(context.Background(), q, profType, tFrom, tTo)
+		return err
+	}))
+	s = append(s, profSelC("prof.timeseries.sel.cluster", `{foo!=%s}`, func(ps *service.ProfService, q string) error {
+		_, err := ps.TimeSeries(context.Background(), []string{`{a="b"}`, q}, []string{"l1"}, tFrom, tTo)
+		return err
+	}))
 	// round 3: the remaining pseudo labels of planner_selector.go (each has its own clause builder)
 	for _, t := range []struct{ name, tmpl string }{
 		{"prof.pseudo.name", `{__name__=%s}`},
@@ -939,6 +1024,7 @@ func markRegexSites(s []site) {
 	extra := map[string]bool{"logql.sel.cluster": true, "logql.topk.sel": true, "logql.regexp": true, "labels.series.match": true,
 		"labels.values.match.re": true, "promql.down.val": true, "traceql.valuesv2.q": true, "traceql.re.agg": true, "traceql.tags.re": true,
 		"tempo.search.val.re": true, "tempo.sqlindexquery": true, "prof.selectseries.sel": true, "prof.timeseries.sel": true,
+		"logql.unwrap.sel.cluster": true, "prof.mergestack.sel.cluster": true, "tempo.search.val.re.3rd": true, "tempo.sqlindexquery.2nd": true,
 		"prof.pseudo.period_unit.re": true, "prof.pseudo.sample_unit.nre": true, "prof.pseudo.profile_type.re": true}
 	for i := range s {
 		n := s[i].name
@@ -954,8 +1040,17 @@ var atoms = []string{
 	"'", "''", "\\", "\\\\", "\\'", "'\\", "\x00", "\n", "\r", "\b", "\t", "\x1a", "--", "/*", "*/", "#", "# ",
 	"%", "_", "\\%", "\\_", "\"", "`", ";", ")", "(", ",", " ", "$$", "\\x27", "\\N", "\\0",
 	"\xff", "\xc0'", "\xe2\x80", "\xc3", "é", "漢", "’", "ʼ", "😀", "\xef\xbc\x87",
+	// round 5 (seeded C10-e): text that a LATER interpretation of the rendered statement would read as directives - fmt verbs (a
+	// rendered statement used as a format string: `%'` is escaped to `%\'` and printed as `%!\(MISSING)'`, the backslash is gone),
+	// regexp / os.Expand / text/template / driver placeholders
+	"%s", "%d", "%v", "%q", "%'", "%%", "%[1]s", "%!", "%!(", "%x'", "%+v", "%5.2f", "%c'", "%U", "%\\", "%*d",
+	"$1", "${1}", "$$1'", "{{.}}", "{{", "?", ":p", "@p1", "{0}", "{}",
 	"' OR 1=1 --", "'; DROP TABLE samples; --", "\\') UNION ALL SELECT 1 --", "') /*", "x", "a", "0", "1=1",
 }
+
+// tried at every position in every run: `%'` (the escaped quote behind a percent sign), a plain verb, the escaped percent sign,
+// an indexed verb next to a bad verb
+var directiveGrid = []string{"%'", "a%sb", "%%'", "%[1]s%!d"}
 
 func genString(r *rand.Rand) (string, string) {
 	switch r.Intn(11) {
@@ -1151,6 +1246,7 @@ type caseRec struct {
 	// round 4: the value is pre ++ atom ++ post (lengths of pre and post); Shaped = the baseline is pre ++ marker ++ post and
 	// `want` is what the atom means (otherwise the whole value is compared with the marker alone)
 	Shape  []int  `json:"shape,omitempty"`
+	Nargs  int    `json:"nargs,omitempty"` // site "gofmt" (round 5): number of string operands handed to fmt.Sprintf with Val as the format
 	Shaped bool   `json:"shaped,omitempty"`
 	ShCls  string `json:"shape_class,omitempty"`
 }
@@ -1260,6 +1356,17 @@ func main() {
 			if json.Unmarshal(line, &c) != nil {
 				return
 			}
+			if c.Site == "gofmt" {
+				// round 5: what package fmt itself prints for a format over string operands (tie of model/GoFmt.v)
+				ops := []any{"INNER ANY", "zq'x", "third"}
+				if c.Nargs < 0 || c.Nargs > len(ops) {
+					return
+				}
+				rn.id++
+				out.Put(map[string]any{"kind": "fmt", "id": rn.id, "format": c.Val, "nargs": c.Nargs,
+					"out": hx.Hex(fmt.Sprintf(hx.UnHex(c.Val), ops[:c.Nargs]...))})
+				return
+			}
 			if s, ok := byName[c.Site]; ok {
 				if len(c.Shape) == 2 {
 					rn.oneShaped(s, hx.UnHex(c.Val), "corpus", c.Shape[0], c.Shape[1])
@@ -1280,6 +1387,13 @@ func main() {
 		}
 		for _, sh := range coreShapes {
 			rn.oneShaped(st, sh.pre+"'"+sh.post, "grid:"+sh.class, len(sh.pre), len(sh.post))
+		}
+	}
+	// round 5: the directive grid: every position x a few strings a later interpretation of the rendered text would read as directives
+	// (deterministic, each run; identifier positions reject them in the parser, which is counted)
+	for _, st := range ss {
+		for _, v := range directiveGrid {
+			rn.one(st, v, "grid:directive")
 		}
 	}
 	for i := 0; i < f.N; i++ {
